@@ -331,12 +331,48 @@ def big_document(rng):
     return gen.text_of(rows)
 
 
+def boundary_document(rng):
+    """a page in which, at every power-of-two offset from 4 kB to 128 kB, a multi-byte character or the CR LF pair
+    straddles the offset (what a reader that works in blocks cuts in two)"""
+    crlf = rng.random() < 0.5
+    nl = '\r\n' if crlf else '\n'
+    top = rng.choice([8192, 16384, 65536, 65536, 131072])
+    out = []
+    size = 0
+    for B in [4096, 8192, 16384, 32768, 65536, 131072]:
+        if B > top:
+            break
+        while size < B - 400:
+            w = rng.randint(3, 30)
+            lab = ''.join(rng.choice('é日ж字ü ab') for _ in range(w - 2))
+            for line in ['+' + '-' * w + '+  ' + '=' * rng.randint(0, 9), '| ' + lab + ' |', '+' + '-' * w + '+', '']:
+                out.append(line)
+                size += len(line.encode()) + len(nl)
+        item = rng.choice(['é', '日', '\U0001f600', 'ж', 'crlf' if crlf else '字'])
+        if item == 'crlf':
+            k = B - 1 - size - 2
+            line = ' ' * k + 'ab'
+        else:
+            k = B - rng.randint(1, len(item.encode()) - 1) - size
+            line = ' ' * k + item + ' ok'
+        out.append(line)
+        size += len(line.encode()) + len(nl)
+    out += ['+--+', '|zz|', '+--+']
+    return nl.join(out) + nl
+
+
 def gen_convert(rng, circles):
     kind, rows = gen.diagram(rng, circles, allow_quotes=True, allow_braces=True, small=True)
     s = gen.text_of(rows)
-    big = rng.random() < 0.04
+    big = rng.random() < 0.06
     if big:
-        s = big_document(rng)
+        s = big_document(rng) if rng.random() < 0.5 else boundary_document(rng)
+    elif rng.random() < 0.08:
+        # CR LF line ends, now and then a CR on its own (the tool passes the text on as it is)
+        s = s.replace('\n', '\r\n')
+        if rng.random() < 0.3 and len(s) > 4:
+            k = rng.randrange(len(s))
+            s = s[:k] + '\r' + s[k:]
     if rng.random() < 0.15:
         s += '# Legend:\na = {fill:red}\n'
     st = {}
